@@ -3,3 +3,4 @@ import AJ.Props.C16
 import AJ.Props.C16Seq
 import AJ.Props.C09Doc
 import AJ.Props.SlotCor
+import AJ.Props.SlotCor2
